@@ -468,7 +468,11 @@ class ScaledInteger(HasUnit, DataType):
     def import_value(self, value):
         """returns a python object from serialisation"""
         try:
-            return self.scale * int(value)
+            if isinstance(value, float) and value.is_integer():
+                value = int(value)
+            if not isinstance(value, int):  # no strings, no fractions
+                raise TypeError('not an integer')
+            return self.scale * value
         except Exception:
             raise WrongTypeError(f'can not import {shortrepr(value)} to scaled') from None
 
